@@ -79,6 +79,29 @@ Theorem C19_periods : forall t first d, 0 < d -> (t - spec_t0 first d) / d = t /
 Proof. exact periods_between. Qed.
 Print Assumptions C19_periods.
 
+(* the numbering is translation invariant exactly along the period grid of the zero time: moving
+   both the first commit and a commit by k whole periods keeps every tick, a commit k periods later
+   is k ticks further, the start of tick 0 moves along; a shift that is not a whole number of periods
+   can renumber (which is why counting periods from another epoch is a different function) *)
+Theorem C19_periods_shift : forall t first d k, 0 < d ->
+  (t + k * d - spec_t0 (first + k * d) d) / d = (t - spec_t0 first d) / d.
+Proof. exact periods_shift_invariant. Qed.
+Print Assumptions C19_periods_shift.
+
+Theorem C19_periods_additive : forall t first d k, 0 < d ->
+  (t + k * d - spec_t0 first d) / d = (t - spec_t0 first d) / d + k.
+Proof. exact periods_additive. Qed.
+Print Assumptions C19_periods_additive.
+
+Theorem C19_start_shift : forall first d k, 0 < d -> spec_t0 (first + k * d) d = spec_t0 first d + k * d.
+Proof. exact spec_t0_shift. Qed.
+Print Assumptions C19_start_shift.
+
+Theorem C19_periods_shift_off_grid_refuted :
+  exists t first d e, 0 < d /\ (t + e - spec_t0 (first + e) d) / d <> (t - spec_t0 first d) / d.
+Proof. exact periods_shift_not_invariant. Qed.
+Print Assumptions C19_periods_shift_off_grid_refuted.
+
 (* ---------------------------------------------------------------- all runs, all inputs *)
 
 (* ticks never decrease along the history of any branch: every configuration (also tick sizes <= 0),
